@@ -61,7 +61,7 @@ META = {
         "(major form x table EOL {SP LF, CR LF, SP CR} x W {[1 2 1],[1 3 2],[0 2 1]}) per revision; 3-revision histories over a "
         "subset family with major forms deviating from (table, table, table) in <= L3_major_dev revisions (thorough: all; 4 configurations, 2 for vectors with 3 deviations), "
         "thorough also 4-revision histories with <= 2 deviations. Every prefix of an enumerated history is itself a member of the "
-        "family of shorter histories. damage part: 2 classic-table seeds x every startxref operand 0..len+8, 8 malformed operands, "
+        "family of shorter histories. damage part: 2 classic-table seeds plus 10 variants of the first seed whose content stream ends in every way (data directly before endstream, data ending in LF/CR/CRLF, blank lines, CR line ends, a single line, EOL LF/CRLF before endstream; /Length exact; quick: the first variant gets every damage kind, the others the operand/keyword/header kinds; thorough: all) x every startxref operand 0..len+8, 8 malformed operands, "
         "misspelt keywords, subsection headers with 1/3/non-numeric fields, every single-byte deletion and 3 single-byte insertions "
         "at every position of every table entry. A case is one document (history x physical form, or seed x damage); non-trivial = "
         "the model has at least one object number whose newest definition is not in the newest section, or any damage. "
@@ -354,9 +354,43 @@ def check_document(st, defs_list, metas, phys, configs, diff: Dict[Any, Any], sa
 
 
 # --------------------------------------------------------------------------- damage
+_L1 = b"BT /F1 12 Tf 40 120 Td (Hello C02) Tj"
+_L2 = b"0 -16 Td (second line) Tj"
+_L3 = b"0 -16 Td (last shown) Tj ET"
+# (content stream data, bytes between the data and the keyword 'endstream'); /Length is always exact
+STREAM_VARIANTS = (
+    (_L1 + b"\n" + _L2 + b"\n" + _L3, b""),  # data directly followed by endstream
+    (_L1 + b"\n" + _L2 + b"\n" + _L3 + b"\n", b""),  # data ends in LF, no further EOL
+    (_L1 + b"\n" + _L2 + b"\n" + _L3 + b"\r", b""),  # data ends in CR
+    (_L1 + b"\n" + _L2 + b"\n" + _L3 + b"\r\n", b""),  # data ends in CR LF
+    (_L1 + b"\n\n" + _L2 + b"\r\n\r\n" + _L3, b""),  # blank lines inside
+    (_L1 + b"\r" + _L2 + b"\r" + _L3, b""),  # CR line ends inside
+    (b"BT /F1 12 Tf 40 120 Td (Hello C02) Tj (only line) Tj ET", b""),  # one line, no EOL at all
+    (_L1 + b"\n" + _L2 + b"\n" + _L3, b"\n"),  # conventional: EOL before endstream
+    (_L1 + b"\n" + _L2 + b"\n" + _L3 + b"\r", b"\n"),  # data ends in CR, then LF before endstream
+    (_L1 + b"\n" + _L2 + b"\n" + _L3, b"\r\n"),  # CR LF before endstream
+)
+FIRST_VARIANT_SEED = 2  # seeds 2.. are seed 0 with content stream variant (which - 2)
+REDUCED_KINDS = ("sx-operand", "tbl-keyword", "tbl-header")
+
+
+def seed_ids(tier: str):
+    """(seed, damage kinds).  Quick: the two base seeds and the first variant get every damage kind, the other
+    stream-ending variants the kinds that need no per-byte sweep; thorough: everything for every seed."""
+    out = [(0, DAMAGE_KINDS), (1, DAMAGE_KINDS)]
+    for v in range(len(STREAM_VARIANTS)):
+        full = tier == "thorough" or v == 0
+        out.append((FIRST_VARIANT_SEED + v, DAMAGE_KINDS if full else REDUCED_KINDS))
+    return out
+
+
 def seed_doc(which: int):
     """Single-revision classic-table seeds.  Returns (data, layout)."""
     out = bytearray(b"%PDF-1.4\n%\xe2\xe3\xcf\xd3\n")
+    variant = None
+    if which >= FIRST_VARIANT_SEED:
+        variant = STREAM_VARIANTS[which - FIRST_VARIANT_SEED]
+        which = 0
     if which == 0:
         eol, nl = b" \n", b"\n"
         objs = {
@@ -366,6 +400,8 @@ def seed_doc(which: int):
             4: Stream({}, b"BT /F1 12 Tf 40 120 Td (Hello C02) Tj ET"),
             5: {"Type": N("Font"), "Subtype": N("Type1"), "BaseFont": N("Helvetica")},
         }
+        if variant is not None:
+            objs[4] = Stream({}, variant[0], eol_before=variant[1])
         order = [1, 2, 3, 4, 5]
         tr = {"Size": 6, "Root": Ref(1)}
     else:
@@ -389,7 +425,7 @@ def seed_doc(which: int):
         if isinstance(v, Stream):
             d = dict(v.d)
             d["Length"] = len(v.data)
-            v = Stream(d, v.data)
+            v = Stream(d, v.data, eol_before=v.eol_before)
         values[n] = v
         offs[n] = len(out)
         if which == 0:
@@ -551,8 +587,19 @@ def ref_text(which: int) -> str:
     if which not in _REFTEXT:
         data, lay = seed_doc(which)
         t = extract(data, 4096)
-        words = ("Hello C02",) if which == 0 else ("first page", "second", "page xref")
+        if which == 0:
+            words: Tuple[str, ...] = ("Hello C02",)
+        elif which == 1:
+            words = ("first page", "second", "page xref")
+        elif which - FIRST_VARIANT_SEED == 6:
+            words = ("Hello C02", "only line")
+        else:
+            words = ("Hello C02", "second line", "last shown")
         assert isinstance(t, str) and all(w in t for w in words), t
+        # the undamaged file must read back exactly what was written (no tolerance): the model *is* the intact file
+        exp = {n: canon_model(v) for n, v in lay["values"].items()}
+        obs = observe(data, True, 4096, sorted(exp))
+        assert obs.get("objs") == exp, (which, obs)
         _REFTEXT[which] = t
     return _REFTEXT[which]
 
@@ -596,10 +643,17 @@ def judge_damage(case: Dict[str, Any]) -> List[Tuple[str, Any, Any, str]]:
                 bad = ({n: exp[n]}, {n: obs["objs"][n]})
                 break
     out = []
+    cause = damage_cause(case, obs)
+    if bad is not None and isinstance(bad[0], dict) and cause.endswith(":fallback-incomplete"):
+        (n, e), o = next(iter(bad[0].items())), next(iter(bad[1].values()))
+        if (isinstance(e, tuple) and isinstance(o, tuple) and e[:1] == ("S",) and o[:1] == ("S",) and isinstance(o[2], bytes)
+                and len(o[2]) < len(e[2]) and e[2].startswith(o[2])):
+            # the body scan found the stream but lost the tail of its data: one cause whatever the damage was
+            cause = "C02/damage:fallback-stream-data-truncated"
     if bad is not None:
-        out.append((damage_cause(case, obs), bad[0], bad[1], f"{case['label']}: not every object is found after damage"))
+        out.append((cause, bad[0], bad[1], f"{case['label']}: not every object is found after damage"))
     if text != case["expect_text"]:
-        sig = damage_cause(case, obs) + ("" if bad is not None else ":text")
+        sig = cause + ("" if bad is not None else ":text")
         if bad is None:
             out.append((sig, case["expect_text"], text, f"{case['label']}: extracted text differs from the undamaged file's"))
         else:
@@ -688,11 +742,14 @@ def shards(tier):
     if b["L4"]:
         s4 = BOUNDS["quick"]["L3_subsets"]
         out += [("L4", i, j, k, l) for i in range(len(s4)) for j in range(len(s4)) for k in range(len(s4)) for l in range(len(s4))]
-    for which in (0, 1):
+    for which, kinds in seed_ids(tier):
         n = seed_doc(which)[1]["len"] + 9
         step = 40
-        out += [("DMG", which, "sx-offset", lo, min(lo + step, n)) for lo in range(0, n, step)]
-        for kind in DAMAGE_KINDS[1:]:
+        if "sx-offset" in kinds:
+            out += [("DMG", which, "sx-offset", lo, min(lo + step, n)) for lo in range(0, n, step)]
+        for kind in kinds:
+            if kind == "sx-offset":
+                continue
             if kind.startswith("tbl-entry"):
                 total = sum(1 for _ in damages(which, kind))
                 out += [("DMG", which, kind, lo, min(lo + 60, total)) for lo in range(0, total, 60)]
